@@ -2,14 +2,16 @@ SPECIFICATION GSpec
 CONSTANTS
   Kids = {"c1", "c2"}
   Defects = {}
-  Configs <- CoreConfigs
+  Configs <- CoreWinConfigs
   PConfigs <- FullPConfigs
   Overlap = FALSE
-  MaxOps = 2
+  MaxOps = 4
   MaxTicks = 1
   Depth = 2
   PFault <- PFaultConfigs
   Sym = TRUE
+  DeepConfigs <- WinConfigs
+  DeepDepth = 4
 CONSTRAINT Emit
 INVARIANTS Conforms
 CHECK_DEADLOCK FALSE
